@@ -20,6 +20,8 @@ Definition sizeof_yr_fat_arch_32_t : Z := 20.
 Definition sizeof_dex_header_t : Z := 112.
 Definition sizeof_WORD : Z := 2.
 Definition sizeof_DWORD : Z := 4.
+Definition sizeof_elf32_header_t : Z := 52.
+Definition sizeof_elf64_header_t : Z := 64.
 Definition off_nt_optional_header : Z := 24.
 
 (* #define fits_in_pe(pe, pointer, size) ((size_t)(size) <= pe->data_size && (uint8_t* ) (pointer) >= pe->data && (uint8_t* ) (pointer) <= pe->data + pe->data_size - (size)) *)
@@ -91,3 +93,16 @@ Definition dotnet_zero_rank : list nat := [1%nat; 0%nat; 0%nat].
 Definition dotnet_unguarded_rank : list nat := [0%nat; 0%nat; 0%nat].
 (* and one that never increases along a call and decreases where a constant is passed *)
 Definition dotnet_reset_rank : list nat := [3%nat; 3%nat; 1%nat].
+
+(* ---- elf.c module_load: (class, data, size demanded of the block, size of the type block_data is cast to,
+        size of the header type of the parser called, bits of that parser, 1 = big-endian parser)
+   ELF_CLASS_32/ELF_DATA_2LSB: block->size > sizeof(elf32_header_t); (elf32_header_t* ) block_data; parse_elf_header_32_le
+   ELF_CLASS_32/ELF_DATA_2MSB: block->size > sizeof(elf32_header_t); (elf32_header_t* ) block_data; parse_elf_header_32_be
+   ELF_CLASS_64/ELF_DATA_2LSB: block->size > sizeof(elf64_header_t); (elf64_header_t* ) block_data; parse_elf_header_64_le
+   ELF_CLASS_64/ELF_DATA_2MSB: block->size > sizeof(elf64_header_t); (elf64_header_t* ) block_data; parse_elf_header_64_be
+*)
+Definition ELF_CLASS_32 : Z := 1.
+Definition ELF_CLASS_64 : Z := 2.
+Definition ELF_DATA_2LSB : Z := 1.
+Definition ELF_DATA_2MSB : Z := 2.
+Definition elf_header_branches : list (Z * Z * Z * Z * Z * Z * Z) := [(1, 1, 52, 52, 52, 32, 0); (1, 2, 52, 52, 52, 32, 1); (2, 1, 64, 64, 64, 64, 0); (2, 2, 64, 64, 64, 64, 1)].
